@@ -2,6 +2,7 @@
 # Builds the harness offline from files on disk only.
 set -e
 export CARGO_NET_OFFLINE=true
-cd /verif/harness
+DIR="$(cd "$(dirname "$0")" && pwd)"
+cd "$DIR/harness"
 cargo build --release --offline
-cargo build --release --offline --features ignore_case --target-dir /verif/harness/target-ic
+cargo build --release --offline --features ignore_case --target-dir "$DIR/harness/target-ic"
